@@ -156,8 +156,12 @@ def plans(prop, tier):
             P.append((k, False, 'exc', 0, ('pause',) if k == 'process' else ()))
             P.append((k, True, 'ret', 2, ('pause',)))
             P.append((k, False, 'ret', 0, (), None, 'us_none'))        # init_state 5, last value assigned in the child: None
+            P.append((k, False, 'ret', 0, (), None, 'us_zero'))        # init_state 7, no assignment in the child at all
+        for mode in ('ctx', 'ctx_zero'):
+            P.append(('remote', False, 'ret', 0, ('pause',) if mode == 'ctx' else (), None, mode))      # worker created within a RemoteContext
             if k != 'thread':
                 P.append((k, False, 'linger', 0, (), None, None))      # reported, but the child process lingers
+                P.append((k, False, 'linger', 0, (), None, 'linger_term'))     # ... and is then force-terminated by an impatient caller
             for e in ('ret', 'exc'):
                 P.append((k, True, e, 2, (), None, 'restart'))         # chains of restarts from a dead worker
     return P
@@ -209,10 +213,18 @@ def run(prop, tier, replay=None):
                 bc['observe'] = None
             if bc['observe'] == 'slowarg':
                 bc.update(observe=None, slowarg=True)
+            if bc['observe'] == 'linger_term':
+                bc.update(observe=None, linger_term=True)
             if bc['observe'] == 'restart':
                 bc.update(observe=None, restart_chain=2)
             if bc['observe'] == 'us_none':
                 bc.update(observe=None, us_none=True, init_state=5)
+            if bc['observe'] == 'us_zero':
+                bc.update(observe=None, us_zero=True, init_state=7)
+            if bc['observe'] == 'ctx':
+                bc.update(observe=None, in_context=True, init_state=40)
+            if bc['observe'] == 'ctx_zero':
+                bc.update(observe=None, in_context=True, us_zero=True, init_state=7)
         base = farm.run(base_cases)
         cases = []
         for (k, p, e, it, faults, cons, obsmode), b in zip(pl, base):
@@ -246,6 +258,8 @@ def run(prop, tier, replay=None):
                     if len(longest) < 12:
                         raise MachineryError('the 32 MB result was not read in pieces (%d line events in _recv_exact): no mid-message point' % len(longest))
                     pts = [longest[len(longest) * q // 8] for q in (1, 2, 3, 4, 5, 6, 7)]
+                if obsmode == 'ctx':
+                    extra = {'in_context': True, 'init_state': 40}
                 if obsmode == 'double':
                     extra = {'double': True}
                 if obsmode == 'slowarg':
